@@ -68,7 +68,7 @@ def explore(res, rng, n):
     # ---- derivative / gradient / hessian on polynomials: exact up to rounding
     for i in range(n):
         order = rng.choice([3, 5, 7, 9, 11])
-        nd = rng.choice([k for k in (1, 2, 3, 4) if k < order])
+        nd = rng.choice([k for k in (0, 1, 1, 2, 2, 3, 4) if k < order])          # n = 0 (the value itself) is a valid derivative order
         deg = rng.randrange(0, order)
         c = [rng.randint(-9, 9) for _ in range(deg + 1)]
         x0 = rng.choice([0.0, 1.0, -2.5, 0.375, 3.0])
